@@ -664,6 +664,17 @@ example : depCubicP (1 : ℝ) 1 0 (1 / 4) = 0 ∨ (1 / 10 ^ 7 : ℝ) < |depCubic
 
 -- L21 on shape (2,3), l2_axis = 0: columns are the groups (entries 1 = (0,1) and 4 = (1,1) together, 1 and 2 apart)
 example : axisGroup [2, 3] [0] 1 = axisGroup [2, 3] [0] 4 ∧ axisGroup [2, 3] [0] 1 ≠ axisGroup [2, 3] [0] 2 := by decide
+-- the projector hypothesis of C02_setdist / C02_sqsetdist in ℝⁿ: the non-negative orthant, P x = max(x, 0) entry-wise
+example {n : ℕ} (x : Fin n → ℝ) :
+    IsProjAt {z : EuclideanSpace ℝ (Fin n) | ∀ i, 0 ≤ z i} (toE x) (toE (fun i => max (x i) 0)) := by
+  refine ⟨fun i => le_max_right _ _, fun z hz => ?_⟩
+  rw [inner_toE]
+  refine Finset.sum_nonpos fun i _ => ?_
+  have hzi : 0 ≤ z i := hz i
+  simp only [PiLp.sub_apply, toE_apply]
+  rcases le_total (x i) 0 with h | h
+  · rw [max_eq_right h]; nlinarith
+  · rw [max_eq_left h]; simp
 end Examples
 
 end Scico.Props.C02
